@@ -22,7 +22,15 @@ def exec_SF(t):
     try:
         x = mk(cs, sx, nx, fx, shifting=mode, overflow=o)
         before = (fmt_of(x), codes_of(x))
-        z = (x << n) if d == 'l' else (x >> n)
+        if (nx + n + len(cs) + cs[0]) % 3 == 0:
+            # the in-place spelling (content-determined): `y <<= n` / `y >>= n` rebinds the name to the shifted object;
+            # the object the name referred to before (x) is not modified
+            import operator
+            z = operator.ilshift(x, n) if d == 'l' else operator.irshift(x, n)
+            if z is x:
+                return ['INPLACE_RETURNED_OPERAND']
+        else:
+            z = (x << n) if d == 'l' else (x >> n)
         unchanged = (fmt_of(x), codes_of(x)) == before
         st = z.status
     except Exception as e:
